@@ -144,6 +144,8 @@ pub fn run(args: &Args, rep: &mut Report) {
                     pairs.push(p);
                 }
             }
+            // another application in the same process whose fang lists one pair that is not among `pairs`
+            let foreign = hook::Router::new(handler_app_single(&("someone else".to_string(), "another:password".to_string())));
             let mut forms: Vec<(&'static str, hook::Router)> = vec![("array", hook::Router::new(handler_app_array(&pairs)))];
             if n == 1 {
                 forms.push(("single", hook::Router::new(handler_app_single(&pairs[0]))));
@@ -194,6 +196,15 @@ pub fn run(args: &Args, rep: &mut Report) {
                         rep.count("admitted");
                         if !ran || status != 200 {
                             rep.violation("C13/false-rejection", &format!("configured credential refused (class {class}, status {status})"), cj());
+                        }
+                        // a credential is valid for the fang that lists it, not for the process: the very same header, right after it was
+                        // admitted here, sent to another application whose fang lists other pairs must be refused there
+                        rep.eval();
+                        rep.count("admitted_credential_replayed_to_a_fang_with_other_pairs");
+                        trace::clear();
+                        let _ = web::oneshot(&foreign, &bytes);
+                        if trace::take().iter().any(|e| matches!(e, Ev::Handler(..))) {
+                            rep.violation("C13/false-admission:credential-of-another-fang", &format!("a credential configured for one BasicAuth fang was admitted by another one that does not list it (class {class})"), cj());
                         }
                     } else {
                         rep.count("refused");
